@@ -23,7 +23,8 @@ PRIM_VALUE = {"u8": 0x92, "i8": -3, "u16": 0xBEEF, "i16": -2, "u32": 0x89ABCDEF,
 PRIM_FMT = {"u8": "<B", "i8": "<b", "u16": "<H", "i16": "<h", "u32": "<I", "i32": "<i", "u64": "<Q", "i64": "<q", "usize": "<I", "isize": "<i",
             "f32": "<f", "f64": "<d", "bool": "<B", "char": "<I"}
 STRUCTS = {"S2": [{"k": "prim", "p": "u8"}, {"k": "prim", "p": "u16"}], "S3": [{"k": "prim", "p": "u32"}, {"k": "prim", "p": "u8"}, {"k": "prim", "p": "u16"}],
-           "SW": [{"k": "prim", "p": "u8"}, {"k": "prim", "p": "i64"}]}
+           "SW": [{"k": "prim", "p": "u8"}, {"k": "prim", "p": "i64"}], "N1": [{"k": "prim", "p": "u32"}]}
+OUT_SUFFIX = [""]          # "o" while the out-struct twins of the cases are rendered (nested structs are out-structs there, too)
 OPQ_PTR = 0x2000
 # two enums take turns (by case number): En has gaps (JS keeps its singletons in an object keyed by discriminant), En2 has explicit
 # gap-free discriminants that do not start at 0 (the contiguous fast path may only be taken for 0..n-1)
@@ -47,7 +48,7 @@ def rust_field(t):
     if k == "slice":
         return "DiplomatSlice<'a, u8>"
     if k == "struct":
-        return t["n"]
+        return t["n"] + OUT_SUFFIX[0]
     if k == "opt":
         return "DiplomatOption<%s>" % rust_field(t["t"])
     raise ValueError(k)
@@ -178,10 +179,22 @@ def run_abi(rep, tier, cases, abi, wd, rng):
     use_enum_of(0)
     for n, fs in STRUCTS.items():
         items.append("    pub struct %s {\n%s    }\n" % (n, "".join("        pub %s: %s,\n" % (FN[i], rust_field(f)) for i, f in enumerate(fs))))
+    # out-struct twins of the nested structs (an out-struct may only contain out-structs that are out-structs themselves to
+    # exercise the out-struct resolution paths)
+    OUT_SUFFIX[0] = "o"
+    for n, fs in STRUCTS.items():
+        items.append("    #[diplomat::out]\n    pub struct %so {\n%s    }\n" % (n, "".join("        pub %s: %s,\n" % (FN[i], rust_field(f)) for i, f in enumerate(fs))))
+    OUT_SUFFIX[0] = ""
     methods = []
     for n, c in enumerate(cases):
         use_enum_of(n)
         lt = "<'a>" if needs_lt(c["fields"]) else ""
+        if not lt and not any(f["k"] == "opq" for f in c["fields"]):
+            # the same fields as an OUT-struct, returned by giveo<n>
+            OUT_SUFFIX[0] = "o"
+            items.append("    #[diplomat::out]\n    pub struct O%d {\n%s    }\n" % (n, "".join("        pub %s: %s,\n" % (FN[i], rust_field(f)) for i, f in enumerate(c["fields"]))))
+            OUT_SUFFIX[0] = ""
+            methods.append("        pub fn giveo%d(&self) -> O%d { todo!() }\n" % (n, n))
         items.append("    pub struct W%d%s {\n%s    }\n" % (n, lt, "".join("        pub %s: %s,\n" % (FN[i], rust_field(f)) for i, f in enumerate(c["fields"]))))
         methods.append("        pub fn take%d%s(&self, s: W%d%s) {}\n" % (n, lt, n, lt))
         if not lt:
@@ -227,8 +240,12 @@ def run_abi(rep, tier, cases, abi, wd, rng):
             lines.append("  { new Uint8Array(wasm.memory.buffer, 0x1800, %d).set([%s]); const r = W%d._fromFFI(rt.internalConstructor, 0x1800, [], [], []); out.readback = J(r); out.fields = J(Object.fromEntries(%s.map(k => [k, r[k]]))); }" % (
             size, imghex, n, json.dumps([FN[i] for i in range(len(c["fields"]))])))
         lines.append("  { calls.length = 0; host.take%d(new W%d(v)); const cl = calls.find(x => x[0] === 'Host_take%d'); out.take = J(cl ? cl[1] : null); out.take_mem = cl && cl[1].length == 2 && typeof cl[1][1] === 'number' ? (() => { try { return bytes(cl[1][1], %d); } catch (e) { return null; } })() : null; }" % (n, n, n, size))
-        if not needs_lt(c["fields"]) and not single:
-            lines.append("  { calls.length = 0; try { host.give%d(); } catch (e) {} const al = calls.find(x => x[0] === 'diplomat_alloc'); out.give = al ? al[1] : null; }" % n)
+        if not needs_lt(c["fields"]):
+            # returning the struct: receive buffer of the struct's size and alignment -- or, for a single scalar (incl. newtype
+            # chains), no buffer at all and only the receiver as argument
+            for fn in ["give"] + (["giveo"] if not any(f["k"] == "opq" for f in c["fields"]) else []):
+                lines.append("  { calls.length = 0; try { host.%s%d(); } catch (e) {} const al = calls.find(x => x[0] === 'diplomat_alloc'); out.%s = al ? al[1] : null; "
+                             "const cl = calls.find(x => x[0] === 'Host_%s%d'); out.%s_nargs = cl ? cl[1].length : -1; }" % (fn, n, fn, fn, n, fn))
         lines.append("  console.log(JSON.stringify(out));")
         lines.append("} catch (e) { console.log(JSON.stringify({n: %d, error: String(e && e.stack || e).slice(0, 400)})); }" % n)
     sp = os.path.join(out, "driver.mjs")
@@ -270,8 +287,15 @@ def run_abi(rep, tier, cases, abi, wd, rng):
             if exp is not None and not same_value(fields.get(FN[i]), exp):
                 rep.violation(dict(key, what="value read back from memory differs", field=i), {"layout": ly, "expected": exp, "read": fields.get(FN[i])})
         # 3. receive buffer
-        if "give" in d and d["give"] != [ly["size"], ly["align"]]:
-            rep.violation(dict(key, what="receive buffer size/alignment differ"), {"expected": [ly["size"], ly["align"]], "observed": d["give"]})
+        single = len(c["flat"]) == 1
+        for fn in ("give", "giveo"):
+            if fn not in d:
+                continue
+            want = None if single else [ly["size"], ly["align"]]
+            if d[fn] != want or d.get(fn + "_nargs") != (1 if single else 2):
+                rep.violation(dict(key, what="receive buffer size/alignment differ" if not single else "a single-scalar struct is returned through a receive buffer",
+                                   flavour="out-struct" if fn == "giveo" else "struct"),
+                              {"expected": want, "observed": d[fn], "arguments_passed": d.get(fn + "_nargs"), "expected_arguments": 1 if single else 2})
         # 4. flattened arguments
         take = json.loads(d["take"]) if d.get("take") else None
         if take is None:
